@@ -451,7 +451,24 @@ class GLRParser(Parser):
             if shifted_head:
                 # If this token has already been shifted connect shifted head to
                 # this head.
-                parent = next(iter(shifted_head.parents.values())).clone_with_root(head)
+                # Reuse the terminal node only if the same token is shifted.
+                # Heads with different tokens of the same symbol may end up
+                # here in case of lexical ambiguity.
+                same_token = [
+                    p
+                    for p in shifted_head.parents.values()
+                    if p.start_position == head.position
+                ]
+                if same_token:
+                    parent = same_token[0].clone_with_root(head)
+                else:
+                    parent = Parent(
+                        shifted_head,
+                        head,
+                        head.position,
+                        end_position,
+                        token=head.token_ahead,
+                    )
                 if self.dynamic_filter and not self._call_dynamic_filter(
                     parent, head.state, to_state, SHIFT
                 ):
